@@ -4,6 +4,8 @@ import MidnightZK.Model.C11.Params
 import MidnightZK.Model.C11.Weierstrass
 import MidnightZK.Model.C11.Edwards
 import MidnightZK.Model.C11.Jubjub
+import MidnightZK.Model.C11.Bn
+import MidnightZK.Model.C11.Codec
 /-!
 Line-protocol handler of property C11.
 
@@ -165,12 +167,253 @@ def answer (op : String) (args : List String) : String :=
 
 end JJ
 
+
+/-! ### Weierstrass curve types (BLS12-381 G1/G2, BN254 G1/G2, secp256k1) -/
+namespace W
+open Codec
+
+structure Cfg (F : Type) where
+  b : F
+  /-- order of the prime-order subgroup -/
+  r : Nat
+  gen : WPoint F
+  zeta : F
+  /-- the wrapped projective type is Jacobian (blst) rather than homogeneous (derive) -/
+  jac : Bool
+  compress : WPoint F → List Nat
+  /-- `from_bytes_unchecked` -/
+  decompress : List Nat → Option (WPoint F)
+  serialize : WPoint F → List Nat
+  /-- `from_uncompressed_unchecked` -/
+  deserialize : List Nat → Option (WPoint F)
+  /-- extra checks of the checked decoders: on-curve, torsion-free -/
+  cChecks : Bool × Bool
+  uChecks : Bool × Bool
+
+section
+variable {F : Type} [CoordField F] [DecidableEq F] [OfNat F 0] [OfNat F 1]
+
+def parseTriple (s : String) : Option (F × F × F) :=
+  match parseTuple (F := F) s with
+  | some [a, b, c] => some (a, b, c)
+  | _ => none
+def fmtTriple (t : F × F × F) : String := fmtTuple [t.1, t.2.1, t.2.2]
+
+def tf (c : Cfg F) (p : WPoint F) : Bool := (wMul (0 : F) c.r p).isNone
+
+def checked (c : Cfg F) (ch : Bool × Bool) (p : Option (WPoint F)) : Option (WPoint F) :=
+  match p with
+  | none => none
+  | some q =>
+    if (ch.1 && !(wOnCurve (0 : F) c.b q)) || (ch.2 && !(tf c q)) then none else some q
+
+def toAff (c : Cfg F) (t : F × F × F) : WPoint F :=
+  if c.jac then jacToAffine t.1 t.2.1 t.2.2 else homToAffine t.1 t.2.1 t.2.2
+
+def withBytes (h : String) (f : List Nat → String) : String :=
+  match hexBytes? h with
+  | some bs => f bs
+  | none => "bad-op"
+
+def answer (c : Cfg F) (op : String) (args : List String) : String :=
+  let a0 : F := 0
+  match op, args with
+  | "gen", [] => fmtW c.gen
+  | "b", [] => ff c.b
+  | "add", [p, q] => match parseW (F := F) p, parseW (F := F) q with
+    | some p, some q => fmtW (wAdd a0 p q) | _, _ => "bad-op"
+  | "sub", [p, q] => match parseW (F := F) p, parseW (F := F) q with
+    | some p, some q => fmtW (wSub a0 p q) | _, _ => "bad-op"
+  | "dbl", [p] => match parseW (F := F) p with
+    | some p => fmtW (wDouble a0 p) | none => "bad-op"
+  | "neg", [p] => match parseW (F := F) p with
+    | some p => fmtW (wNeg p) | none => "bad-op"
+  | "mul", [p, k] => match parseW (F := F) p, parseNat? k with
+    | some p, some k => fmtW (wMul a0 k p) | _, _ => "bad-op"
+  | "sum", l => match l.mapM (parseW (F := F)) with
+    | some ps => fmtW (wSum a0 ps) | none => "bad-op"
+  | "tf", [p] => match parseW (F := F) p with
+    | some p => fmtBool (tf c p) | none => "bad-op"
+  | "oncurve", [p] => match parseW (F := F) p with
+    | some p => fmtBool (wOnCurve a0 c.b p) | none => "bad-op"
+  | "fromxy", [p] => match parsePair (F := F) p with
+    | some (x, y) =>
+      if x = 0 ∧ y = 0 then "inf"
+      else if wOnCurve a0 c.b (some (x, y)) then fmtPair (x, y) else "none"
+    | none => "bad-op"
+  | "norm", [t] => match parseTriple (F := F) t with
+    | some t => fmtW (toAff c t) | none => "bad-op"
+  | "isid", [t] => match parseTriple (F := F) t with
+    | some t => fmtBool (decide (t.2.2 = 0)) | none => "bad-op"
+  | "eqraw", [t, u] => match parseTriple (F := F) t, parseTriple (F := F) u with
+    | some (x1, y1, z1), some (x2, y2, z2) =>
+      let id1 := decide (z1 = 0)
+      let id2 := decide (z2 = 0)
+      let cross :=
+        if c.jac then
+          decide (x1 * (z2 * z2) = x2 * (z1 * z1)) && decide (y1 * (z2 * z2) * z2 = y2 * (z1 * z1) * z1)
+        else decide (x1 * z2 = x2 * z1) && decide (y1 * z2 = y2 * z1)
+      fmtBool ((id1 && id2) || (!id1 && !id2 && cross)) ++ " " ++
+        fmtBool (decide (toAff c (x1, y1, z1) = toAff c (x2, y2, z2)))
+    | _, _ => "bad-op"
+  | "jaccoords", [t] => match parseTriple (F := F) t with
+    | some (x, y, z) =>
+      let j : F × F × F := if c.jac then (x, y, z) else Bn.jacobianCoordinates ⟨x, y, z⟩
+      fmtTriple j ++ " " ++ fmtW (jacToAffine j.1 j.2.1 j.2.2)
+    | none => "bad-op"
+  | "newjac", [t] => match parseTriple (F := F) t with
+    | some (x, y, z) =>
+      let p := jacToAffine x y z
+      if wOnCurve a0 c.b p then fmtW p else "none"
+    | none => "bad-op"
+  | "endo", [p] => match parseW (F := F) p with
+    | some none => "inf"
+    | some (some (x, y)) => fmtPair (x * c.zeta, y)
+    | none => "bad-op"
+  | "enc", [p] => match parseW (F := F) p with
+    | some p => bytesHex (c.compress p) | none => "bad-op"
+  | "encu", [p] => match parseW (F := F) p with
+    | some p => bytesHex (c.serialize p) | none => "bad-op"
+  | "dec_unchecked", [h] => withBytes h fun bs => fmtOpt fmtW (c.decompress bs)
+  | "dec", [h] => withBytes h fun bs => fmtOpt fmtW (checked c c.cChecks (c.decompress bs))
+  | "decu_unchecked", [h] => withBytes h fun bs => fmtOpt fmtW (c.deserialize bs)
+  | "decu", [h] => withBytes h fun bs => fmtOpt fmtW (checked c c.uChecks (c.deserialize bs))
+  | _, _ => "bad-op"
+
+/-- Structural operations of the homogeneous-coordinate types of `derive/curve.rs`. -/
+def answerBn (c : Cfg F) (op : String) (args : List String) : String :=
+  let b3 := c.b + c.b + c.b
+  let pp (s : String) : Option (Bn.Proj F) := (parseTriple (F := F) s).map fun t => ⟨t.1, t.2.1, t.2.2⟩
+  let fp (p : Bn.Proj F) : String := fmtTuple [p.x, p.y, p.z]
+  match op, args with
+  | "addraw", [p, q] => match pp p, pp q with
+    | some p, some q => fp (Bn.addRaw b3 p q) | _, _ => "bad-op"
+  | "mixedraw", [p, q] => match pp p, parseW (F := F) q with
+    | some p, some q => fp (Bn.addMixed b3 p q) | _, _ => "bad-op"
+  | "dblraw", [p] => match pp p with
+    | some p => fp (Bn.double b3 p) | none => "bad-op"
+  | "negraw", [p] => match pp p with
+    | some p => fp p.neg | none => "bad-op"
+  | "mulraw", [p, k] => match pp p, parseNat? k with
+    | some p, some k => fp (Bn.mul b3 p k) | _, _ => "bad-op"
+  | "mulraw_a", [q, k] => match parseW (F := F) q, parseNat? k with
+    | some q, some k => fp (Bn.mulAffine b3 q k) | _, _ => "bad-op"
+  | "tocurve", [q] => match parseW (F := F) q with
+    | some q => fp (Bn.ofAffine q) | none => "bad-op"
+  | "oncurve_raw", [p] => match pp p with
+    | some p => fmtBool (Bn.isOnCurve c.b p) | none => "bad-op"
+  | "oncurve_xy", [q] => match parsePair (F := F) q with
+    | some (x, y) => fmtBool (Bn.affIsOnCurve c.b x y) | none => "bad-op"
+  | "newjac_raw", [t] => match parseTriple (F := F) t with
+    | some (x, y, z) => fmtOpt fp (Bn.newJacobian c.b x y z) | none => "bad-op"
+  | "endoraw", [p] => match pp p with
+    | some p => fp (Bn.endo c.zeta p) | none => "bad-op"
+  | "toaffine_raw", [p] => match pp p with
+    | some p => fmtW (Bn.toAffine p) | none => "bad-op"
+  | _, _ => answer c op args
+
+end
+
+open Params
+
+def g1 : Cfg (Fp blsP) :=
+  let fc := fpCodec blsP 48
+  { b := 4, r := blsR, gen := some (⟨g1GenX⟩, ⟨g1GenY⟩), zeta := ⟨blsZeta⟩, jac := true,
+    compress := blsCompress fc, decompress := blsUncompress fc 4,
+    serialize := blsSerialize fc, deserialize := blsDeserialize fc 4,
+    cChecks := (true, true), uChecks := (true, false) }
+
+def g2B : Fp2 blsP := ⟨4, 4⟩
+
+def g2 : Cfg (Fp2 blsP) :=
+  let fc := fp2Codec blsP 48
+  { b := g2B, r := blsR,
+    gen := some (⟨⟨g2GenX0⟩, ⟨g2GenX1⟩⟩, ⟨⟨g2GenY0⟩, ⟨g2GenY1⟩⟩),
+    zeta := ⟨⟨blsZeta⟩, ⟨0⟩⟩, jac := true,
+    compress := blsCompress fc, decompress := blsUncompress fc g2B,
+    serialize := blsSerialize fc, deserialize := blsDeserialize fc g2B,
+    cChecks := (true, true), uChecks := (true, true) }
+
+def bn1 : Cfg (Fp bnP) :=
+  let fc := fpCodec bnP 32
+  { b := 3, r := bnR, gen := some (1, 2), zeta := ⟨bnZeta⟩, jac := false,
+    compress := bnEncode fc, decompress := bnDecode fc 3,
+    serialize := bnToUncompressed fc, deserialize := bnFromUncompressed fc 3 false,
+    cChecks := (false, false), uChecks := (true, false) }
+
+def bn2B : Fp2 bnP := ⟨⟨bnB2c0⟩, ⟨bnB2c1⟩⟩
+
+def bn2 : Cfg (Fp2 bnP) :=
+  let fc := fp2Codec bnP 32
+  { b := bn2B, r := bnR,
+    gen := some (⟨⟨bnG2X0⟩, ⟨bnG2X1⟩⟩, ⟨⟨bnG2Y0⟩, ⟨bnG2Y1⟩⟩),
+    zeta := ⟨⟨bnZeta⟩ * ⟨bnZeta⟩, ⟨0⟩⟩, jac := false,
+    compress := bnEncode fc, decompress := bnDecode fc bn2B,
+    serialize := bnToUncompressed fc, deserialize := bnFromUncompressed fc bn2B false,
+    cChecks := (false, false), uChecks := (true, false) }
+
+def secp : Cfg (Fp secpP) :=
+  { b := 7, r := secpN, gen := some (⟨secpGenX⟩, ⟨secpGenY⟩), zeta := 1, jac := false,
+    compress := secpEncode, decompress := secpDecode,
+    serialize := fun _ => [], deserialize := fun _ => none,
+    cChecks := (false, false), uChecks := (false, false) }
+
+end W
+
+/-! ### Curve25519 (twisted Edwards form, `curve25519-dalek` wrappers) -/
+namespace ED
+open Params Codec
+
+abbrev Fq := Fp edP
+def d : Fq := ⟨edD⟩
+def aM1 : Fq := -(1 : Fq)
+def law (p q : Fq × Fq) : Fq × Fq := eAdd aM1 d p q
+
+def answer (op : String) (args : List String) : String :=
+  match op, args with
+  | "gen", [] => fmtPair ((⟨edGenX⟩, ⟨edGenY⟩) : Fq × Fq)
+  | "add", [a, b] => match parsePair (F := Fq) a, parsePair (F := Fq) b with
+    | some p, some q => fmtPair (law p q) | _, _ => "bad-op"
+  | "sub", [a, b] => match parsePair (F := Fq) a, parsePair (F := Fq) b with
+    | some p, some q => fmtPair (law p (eNeg q)) | _, _ => "bad-op"
+  | "dbl", [a] => match parsePair (F := Fq) a with
+    | some p => fmtPair (law p p) | none => "bad-op"
+  | "neg", [a] => match parsePair (F := Fq) a with
+    | some p => fmtPair (eNeg p) | none => "bad-op"
+  | "mul", [a, k] => match parsePair (F := Fq) a, parseNat? k with
+    | some p, some k => fmtPair (eMul aM1 d k p) | _, _ => "bad-op"
+  | "sum", l => match l.mapM (parsePair (F := Fq)) with
+    | some ps => fmtPair (eSum aM1 d ps) | none => "bad-op"
+  | "isid", [a] => match parsePair (F := Fq) a with
+    | some p => fmtBool (decide (p = eZero)) | none => "bad-op"
+  | "tf", [a] => match parsePair (F := Fq) a with
+    | some p => fmtBool (decide (eMul aM1 d edL p = eZero)) | none => "bad-op"
+  | "oncurve", [a] => match parsePair (F := Fq) a with
+    | some p => fmtBool (eOnCurve aM1 d p) | none => "bad-op"
+  | "fromxy", [a] => match parsePair (F := Fq) a with
+    | some p => if eOnCurve aM1 d p then fmtPair p else "none"
+    | none => "bad-op"
+  | "enc", [a] => match parsePair (F := Fq) a with
+    | some p => bytesHex (edEncode p) | none => "bad-op"
+  | "dec", [h] => match hexBytes? h with
+    | some bs => if bs.length ≠ 32 then "bad-op" else fmtOpt fmtPair (edDecode bs)
+    | none => "bad-op"
+  | _, _ => "bad-op"
+
+end ED
+
 def answer (line : String) : String :=
   match words line with
   | curve :: op :: args =>
     let op := (op.splitOn ":").headD ""
     match curve with
     | "jj" => JJ.answer op args
+    | "g1" => W.answer W.g1 op args
+    | "g2" => W.answer W.g2 op args
+    | "bn1" => W.answerBn W.bn1 op args
+    | "bn2" => W.answerBn W.bn2 op args
+    | "k256" => W.answer W.secp op args
+    | "ed" => ED.answer op args
     | _ => "bad-op"
   | _ => "bad-op"
 
